@@ -322,6 +322,10 @@ func c09All(env *core.Env, c *fmtCase) core.Verdict {
 	tree := sut.Tree{}
 	anyDirty := false
 	dirtyAt := rng.Intn(len(names) + 1) // == len(names): none
+	sameBase := rng.Intn(4) == 0
+	if sameBase {
+		dirtyAt = len(names) // the only file that may be not canonical is one of the two namesakes below
+	}
 	for i, n := range names {
 		body := fmtGen(rng, "structured").Content
 		canon := fmtModel(body)
@@ -358,7 +362,7 @@ func c09All(env *core.Env, c *fmtCase) core.Verdict {
 	}
 	// two files with the same base name in different directories, at most one of them not canonical: the verdict on
 	// one is not the verdict on the other
-	if rng.Intn(3) == 0 {
+	if sameBase {
 		body := fmtGen(rng, "structured").Content
 		dirtyOne := rng.Intn(3) // 0: include/ dirty, 1: exclude/ dirty, 2: both canonical
 		for k, n := range []string{"regex-assembly/include/words.ra", "regex-assembly/exclude/words.ra"} {
@@ -381,7 +385,7 @@ func c09All(env *core.Env, c *fmtCase) core.Verdict {
 	// one more file may be refused by the formatter (an end marker that closes no block, with lines above it): the
 	// command fails, that file stays as it is, and every other file is formatted as if it were not there
 	refused := ""
-	if rng.Intn(4) == 0 {
+	if rng.Intn(4) == 0 && !sameBase {
 		refused = core.Pick(rng, "regex-assembly/910100.ra", "regex-assembly/932100-chain1.ra", "regex-assembly/include/aa-first.ra", "regex-assembly/exclude/zz.ra")
 		tree[refused] = "  first line of the refused file\nsecond line\n##!<\nbehind the marker\n"
 		anyDirty = true
